@@ -23,6 +23,7 @@ from xml.parsers import expat
 from mc.core import h64
 from mc.explore import Chooser
 from mc.pdfgen import Doc, N, Ref, Stream, tounicode_cmap
+from mc.refs.forkrun import fork_call
 
 ID = "C11"
 LEVEL = "model_checking"
@@ -51,9 +52,10 @@ CODECS = ["utf-8", "utf-16", "utf-32", "latin-1"]
 
 BOUNDS = {
     "quick": "all single-slot deviations over the full alphabets (36 text / 28 name specials, 3 page-2 variants) + all "
-             "slot pairs over the 6-element core alphabets; option grid: 5 LAParams x {extract_text(), text, xml x strip_control} x {StringIO, BytesIO x 4 codecs} "
+             "slot pairs over the 6-element core alphabets; all ordered pairs of 9 documents with equal object numbers but different fonts converted one after the other in one process (4 entry points); option grid: 5 LAParams x {extract_text(), text, xml x strip_control} x {StringIO, BytesIO x 4 codecs} "
              "for documents with <= 1 special slot; for two-slot documents the BytesIO x codec part only under the default LAParams",
-    "thorough": "all choice vectors with <= 2 non-default slots over the full alphabets; same option grids",
+    "thorough": "all choice vectors with <= 2 non-default slots over the full alphabets; same option grids and document pairs; "
+                "text sinks (StringIO, extract_text) additionally with codec in {utf-8, latin-1, ascii} under the default LAParams (both tiers)",
 }
 
 META = {
@@ -62,7 +64,10 @@ META = {
         "document x LAParams variant x output x sink/codec x strip_control is one evaluation (one call of "
         "extract_text_to_fp compared with the tree from extract_pages). non-trivial = the document has at least one "
         "non-default slot and the conversion produced output. states/transitions = nodes/edges of the choice tree, "
-        "traces = documents whose every conversion was compared. outcome = hash of the produced output."
+        "traces = documents whose every conversion was compared. outcome = hash of the produced output. Every document "
+        "is converted in its own forked process (state: pdfminer imported, nothing converted), so a stored case replays "
+        "alone: its history is the document's earlier rows, which replay re-runs. The pair family converts document A "
+        "then document B through the same entry point and compares B's output with B's own tree."
     ),
     "bound": BOUNDS,
     "assumptions": [
@@ -109,6 +114,19 @@ def build_pdf(m: dict) -> bytes:
     fm1 = d.add(Stream({"Type": N("XObject"), "Subtype": N("Form"), "BBox": [0, 0, 200, 100], "Matrix": [1, 0, 0, 1, 3, 5],
                         "Resources": {"Font": {"F1": font}, "XObject": {"Fm2": fm2}}},
                        b"BT /F1 10 Tf 10 50 Td (XY) Tj ET 5 5 20 10 re f q 1 0 0 1 120 20 cm /Fm2 Do Q"))
+    # vertical writing with an advance that differs from the font size (LTChar.size = width != height), plus a
+    # horizontally scaled glyph (width != size): the size attribute must come from LTChar.size
+    tuv = d.add(Stream({}, tounicode_cmap(bfchars=[(b"\x00A", "V"), (b"\x00B", "W")], codespace=((b"\x00\x00", b"\xff\xff"),))))
+    fontv = d.add({
+        "Type": N("Font"), "Subtype": N("Type0"), "BaseFont": N("FontV"), "Encoding": N("Identity-V"), "ToUnicode": tuv,
+        "DescendantFonts": [{
+            "Type": N("Font"), "Subtype": N("CIDFontType0"), "BaseFont": N("FontV"),
+            "CIDSystemInfo": {"Registry": b"Adobe", "Ordering": b"Identity", "Supplement": 0},
+            "DW2": [880, -500], "W2": [66, [-750, 500, 880]],
+            "FontDescriptor": {"Type": N("FontDescriptor"), "FontName": N("FontV"), "Flags": 4, "FontBBox": [0, -120, 1000, 880],
+                               "Ascent": 880, "Descent": -120, "ItalicAngle": 0, "CapHeight": 700, "StemV": 80},
+        }],
+    })
     fmname, imname = m["form"], m["image"]
     from mc.pdfgen import ser_name
 
@@ -116,6 +134,8 @@ def build_pdf(m: dict) -> bytes:
         b"BT /F1 12 Tf 72 700 Td (AB C) Tj 0 -14 Td [(D) -900 (E)] TJ ET\n"
         b"BT /F1 12 Tf 72 600 Td (FG) Tj ET\n"
         b"BT /F1 9 Tf 310 503 Td (K) Tj ET\n"
+        b"BT /FV 12 Tf 520 707 Td <00410042> Tj ET\n"
+        b"BT /F1 10 Tf 50 Tz 72 421 Td (NO) Tj ET\n"
         b"0.5 w 100 100 50 40 re S\n"
         b"2 w 10 10 m 200 10 l S\n"
         b"10 20 m 30 40 50 20 70 40 c S\n"
@@ -127,7 +147,7 @@ def build_pdf(m: dict) -> bytes:
     xobj[fmname] = fm1
     if imname != fmname:
         xobj[imname] = img
-    res1 = {"Font": {"F1": font}, "XObject": xobj}
+    res1 = {"Font": {"F1": font, "FV": fontv}, "XObject": xobj}
     v = m["page2"]
     if v == 0:
         c2 = b"BT /F1 12 Tf 100 700 Td (H) Tj 0 -14 Td (I) Tj 0 -14 Td (J) Tj ET\nBT /F1 11 Tf 300 400 Td (LM) Tj ET\n"
@@ -589,31 +609,99 @@ def judge(ctx: Ctx, output: str, sink: str, codec: str, strip: bool):
     return ("judged", h64(text), viols)
 
 
+TEXT_SINK_CODECS = ["utf-8", "latin-1", "ascii"]
+
+
 def grid(la, full: bool):
     """Option grid.  full: every sink/codec under every LAParams.  reduced (two-slot documents): text sinks under every
-    LAParams, binary sinks x codecs under the default LAParams only (the sink layer does not see the layout)."""
+    LAParams, binary sinks x codecs under the default LAParams only (the sink layer does not see the layout).  The codec
+    argument on text sinks (utf-8, latin-1, ascii; default LAParams) must not change what a text sink or extract_text() receives."""
+    wide = full or la == {}
     if la is not None:
-        yield "text", "return", "utf-8", False  # extract_text(); with laparams=None it substitutes LAParams(), which is the {} row
+        # extract_text(); with laparams=None it substitutes LAParams(), which is the {} row
+        for codec in (TEXT_SINK_CODECS if la == {} else TEXT_SINK_CODECS[:1]):
+            yield "text", "return", codec, False
     for output in ("text", "xml"):
         for strip in ((False,) if output == "text" else (False, True)):
-            yield output, "str", "utf-8", strip
-            if full or la == {}:
+            for codec in (TEXT_SINK_CODECS if la == {} and output == "text" else TEXT_SINK_CODECS[:1]):
+                yield output, "str", codec, strip
+            if wide:
                 for codec in CODECS:
                     yield output, "bytes", codec, strip
 
 
+def _doc_rows(full: bool):
+    return [(la, row) for la in LAPARAMS for row in grid(la, full)]
+
+
+def _run_doc(args):
+    """Runs in a forked child (process state = pdfminer imported, nothing converted): every conversion of one document.
+    Returns records; the position of a conversion in the document's row list is its in-case history."""
+    pdf, full, upto = args
+    rec = []
+    ctx = None
+    for i, (la, (output, sink, codec, strip)) in enumerate(_doc_rows(full)):
+        if upto is not None and i > upto:
+            break
+        if ctx is None or ctx.la != la:
+            ctx = Ctx(pdf, la)
+        status, outcome, viols = judge(ctx, output, sink, codec, strip)
+        rec.append((i, la, output, sink, codec, strip, status, outcome, viols))
+    return rec
+
+
 def check_doc(m: dict, st, nontrivial: bool, full: bool = True) -> None:
+    _pdfminer()  # imported in this process, so that every forked child starts from "imported, nothing converted"
     pdf = build_pdf(m)
-    for la in LAPARAMS:
-        ctx = Ctx(pdf, la)
-        for output, sink, codec, strip in grid(la, full):
-            status, outcome, viols = judge(ctx, output, sink, codec, strip)
-            if status != "judged":
-                st.not_judged[status] += 1
-                continue
-            st.case(None, nontrivial=nontrivial, outcome=outcome)
-            for sig, exp, obs, what in viols:
-                st.violation(sig, {"pdf": pdf, "la": la, "output": output, "sink": sink, "codec": codec, "strip": strip, "slots": m}, exp, obs, what)
+    for i, la, output, sink, codec, strip, status, outcome, viols in fork_call(_run_doc, (pdf, full, None)):
+        if status != "judged":
+            st.not_judged[status] += 1
+            continue
+        st.case(None, nontrivial=nontrivial, outcome=outcome)
+        for sig, exp, obs, what in viols:
+            st.violation(sig, {"family": "doc", "pdf": pdf, "full": full, "row": i, "la": la, "output": output, "sink": sink,
+                               "codec": codec, "strip": strip, "slots": m}, exp, obs, what)
+
+
+# ------------------------------------------------------------ call sequences
+def seq_docs():
+    """Documents with identical object numbering whose font objects differ (ToUnicode target, font name)."""
+    base = PROGRAMS["full"](Chooser(()))
+    out = [dict(base)]
+    for t in TEXT_SMALL:
+        out.append({**base, "tA": t})
+    for n in NAME_SMALL[:2]:
+        out.append({**base, "font": n})
+    return out
+
+
+SEQ_ROWS = [("text", "str", "utf-8", False), ("text", "bytes", "utf-8", False), ("xml", "str", "utf-8", True), ("text", "return", "utf-8", False)]
+
+
+def _run_seq(args):
+    """Child: convert document A, then document B, through the same entry point; B's output is compared with B's own tree."""
+    pdf_a, pdf_b, row = args
+    output, sink, codec, strip = row
+    convert(pdf_a, {}, output, sink, codec, strip)
+    ctx = Ctx(pdf_b, {})
+    return judge(ctx, output, sink, codec, strip)
+
+
+def check_seq(ma: dict, mb: dict, st) -> None:
+    _pdfminer()
+    pdf_a, pdf_b = build_pdf(ma), build_pdf(mb)
+    for row in SEQ_ROWS:
+        status, outcome, viols = fork_call(_run_seq, (pdf_a, pdf_b, row))
+        st.transitions += 2
+        if status != "judged":
+            st.not_judged[status] += 1
+            continue
+        st.case(None, nontrivial=True, outcome=outcome)
+        for sig, exp, obs, what in viols:
+            st.violation("C11/after-another-document:" + sig.split("/", 1)[1],
+                         {"family": "seq", "pdf_a": pdf_a, "pdf": pdf_b, "row": list(row), "slots_a": ma, "slots": mb}, exp, obs,
+                         "second of two documents converted in one process: " + what)
+    st.traces += 1
 
 
 # -------------------------------------------------------------------- shards
@@ -639,11 +727,22 @@ def shards(tier):
     else:
         for p in singles:
             out.append(("full", (p,), True, 2))
+    # family 3: every ordered pair of documents (same object numbers, different fonts) converted one after the other
+    n = len(seq_docs())
+    out += [("seq", i, None, None) for i in range(n)]
     return out
 
 
 def run_shard(shard, tier, st):
     fam, prefixes, expand, bound = shard
+    if fam == "seq":
+        docs = seq_docs()
+        for j, mb in enumerate(docs):
+            check_seq(docs[prefixes], mb, st)
+            st.states += 1
+        if prefixes == 1:
+            st.sample({"family": "seq", "first": docs[1], "then": docs[0], "rows": SEQ_ROWS})
+        return
     prog = PROGRAMS[fam]
     if prefixes == ():
         prefixes = ((),)
@@ -666,8 +765,14 @@ def run_shard(shard, tier, st):
 
 
 def replay(case):
-    ctx = Ctx(case["pdf"], case["la"])
-    _, _, viols = judge(ctx, case["output"], case["sink"], case["codec"], case["strip"])
     from mc.core import jenc
 
+    _pdfminer()
+    if case.get("family") == "seq":
+        _, _, viols = fork_call(_run_seq, (case["pdf_a"], case["pdf"], tuple(case["row"])))
+        viols = [("C11/after-another-document:" + s.split("/", 1)[1], e, o, w) for s, e, o, w in viols]
+    else:
+        # the conversions of this document that preceded the stored one are its call history: run them first
+        rec = fork_call(_run_doc, (case["pdf"], case.get("full", True), case["row"]))
+        viols = rec[-1][8] if rec and rec[-1][0] == case["row"] else []
     return [{"signature": s, "expected": jenc(e), "observed": jenc(o)} for s, e, o, _ in viols]
